@@ -54,8 +54,9 @@ def _describe(e):
         return "%s %s: after refusing a %s with an unacceptable payload the agent is in %s; the legal follow-up %s(%s) returned %s%s and left it in %s (a refused message must not change the state)" % (
             e["proto"], e["role"], e["steps"][0]["msg"], e["state"], e["via"], steps, e["res"], ("(%s)" % e["err"]) if e["err"] else "", e["after"])
     if e.get("bad", 0) > 0:
-        return "%s %s in state %s: %s(%s) with a %s payload in step %d returned %s%s and left the agent in %s: a message refused with an error must not change the state" % (
-            e["proto"], e["role"], e["state"], e["via"], steps, e["badkind"], e["bad"], e["res"], ("(%s)" % e["err"]) if e["err"] else "", e["after"])
+        what = "a well-formed message of a kind this entry point does not handle" if e["badkind"] == "other-kind" else "a %s payload" % e["badkind"]
+        return "%s %s in state %s: %s(%s) with %s in step %d returned %s%s and left the agent in %s: a message refused with an error must leave the state reached before that step" % (
+            e["proto"], e["role"], e["state"], e["via"], steps, what, e["bad"], e["res"], ("(%s)" % e["err"]) if e["err"] else "", e["after"])
     return "%s %s in state %s: %s(%s) returned %s%s and left the agent in %s, which the state machine does not allow" % (
         e["proto"], e["role"], e["state"], e["via"], steps, e["res"], ("(%s)" % e["err"]) if e["err"] else "", e["after"])
 
